@@ -126,9 +126,9 @@ def check(tier):
         ms, hs = ms[::2], hs[::3]
     for i in range(0, len(ms), 8):
         ck.add("rate-laws/massaction/%d" % (i // 8), "harness.C01", "massaction_job",
-               dict(cases=ms[i:i + 8], domain="real", routes=["interface", "safe"]))
+               dict(cases=ms[i:i + 8], domain="real", routes=["interface", "safe"], modes=["volume", "stochastic_volume"]))
     for i in range(0, len(hs), 8):
-        ck.add("rate-laws/hill/%d" % (i // 8), "harness.C01", "hill_job", dict(cases=hs[i:i + 8], domain="real", routes=["interface", "safe"]))
+        ck.add("rate-laws/hill/%d" % (i // 8), "harness.C01", "hill_job", dict(cases=hs[i:i + 8], domain="real", routes=["interface", "safe"], modes=["volume", "stochastic_volume"]))
     ck.bounds = dict(species="<= 3", reactions="<= 3", time_points="<= 4",
                      loop="one iteration from an arbitrary pre-state (inductive) + initialisation + exit/truncation")
     ck.assumptions = [
@@ -163,6 +163,7 @@ def check(tier):
             ck.add_mutant(name, m, "kernel", "harness.C11", "kernel_job", dict(cases=[("sttv",)]))
         elif which == "step":
             ck.add_mutant(name, m, "step", "harness.steps", "volume_step", dict(cases=[(2, 2, 2, 0), (2, 2, 2, 1)], facets=FACETS))
+    ck.oracle_selftest = [{'kind': 'volume'}]
     ck.validate = ['volume_ssa']
     ck.run()
     return ck.finish(replay=REPLAY)
